@@ -13,7 +13,13 @@ For a crash state with more than one thread the interleaving is unknown: the har
 verdict of the marker invariants (`inv-ok`), which is what the spec column demands.
 `crashw i k js exact` forces one particular interleaving on the real code (the datasets `js` complete
 and marked, then the first `k` writes of dataset `i`): the model column is the state after exactly
-that prefix of that linearisation (`Crash.run` over `js.flatMap dsWrites ++ (dsWrites i).take k`). -/
+that prefix of that linearisation (`Crash.run` over `js.flatMap dsWrites ++ (dsWrites i).take k`).
+EXTENSION histories (`stages=`, `mk`, `ext`): stage `j` is the collection of the first `n_j` datasets
+with dataset `i` stored under location `o_j + i`; `mk` = `Crash.createSess`, `ext` = `Crash.extendSess`
+(the model's `create` / `update` that keep the handle open), followed by `internalize` for a
+memory-backed stage; the world the model reads external signatures from is the stage's own storage.
+The name a signature is printed with is the dataset's position (what the specification demands); the
+hashes come from the model's `sig_for_dataset`. -/
 open Driver Crash
 
 structure DState where
@@ -25,6 +31,10 @@ structure DState where
   sess : Sess := { disk := Disk.empty }
   /-- the last build on the directory ran to completion (the property speaks about such indexes only) -/
   complete : Bool := false
+  /-- every dataset of the case line (`st.coll` is the collection the index is currently built over) -/
+  all : Coll := []
+  /-- `stages=`: (number of datasets, location offset) -/
+  stages : List (Nat × Nat) := []
 
 def parseColl (s : String) : Coll :=
   let ds := (s.splitOn "/").map natList
@@ -66,11 +76,12 @@ def showGather (g : Option (List (Nat × Nat × Nat))) : String :=
   | some [] => "-"
   | some l => ",".intercalate (l.map (fun e => "d" ++ toString e.1 ++ ":" ++ toString e.2.1 ++ ":" ++ toString e.2.2))
 
+/-- per dataset position `i`: the name the specification demands (`d<i>`), the hashes handed out -/
 def showSigs (l : List (Option (Nat × Sketch))) : String :=
   if l.isEmpty then "-" else
   ";".intercalate (l.map (fun e => match e with
     | none => "err"
-    | some (loc, sk) => "d" ++ toString loc ++ ":" ++ showNats sk ++ ":md5ok"))
+    | some (i, sk) => "d" ++ toString i ++ ":" ++ showNats sk ++ ":md5ok"))
 
 /-- C, G, S through a handle -/
 def answers (st : DState) (h : Handle) : String :=
@@ -79,7 +90,7 @@ def answers (st : DState) (h : Handle) : String :=
   let sig := sigFor w d h
   let sigs := (List.range h.manifest.length).map (fun i =>
     match h.manifest[i]?, sig i with
-    | some loc, some sk => some (loc, sk)
+    | some _, some sk => some (i, sk)
     | _, _ => none)
   match gather d.hashes sig st.q with
   | none => "PANIC"      -- `sig_for_dataset` of an id the manifest does not have: index out of bounds
@@ -105,7 +116,7 @@ def refObserve (st : DState) : String :=
     ++ " P=" ++ (if n == 0 then "none" else showNats (List.range n))
     ++ " M=1/" ++ toString n ++ "/" ++ specStr d.spec ++ " X=" ++ toString d.storage.keys.length
     ++ " C=" ++ showCounter (refCounter c st.q) ++ " G=" ++ showGather (some g)
-    ++ " S=" ++ showSigs (c.map (fun ds => some (ds.loc, ds.hashes)))
+    ++ " S=" ++ showSigs ((List.range n).map (fun i => some (i, c.hashesOf i)))
 
 /-- the writes of the build under test on the current directory (`none`: open / check_superset fails) -/
 def buildLog (st : DState) : Option (List Write) :=
@@ -134,7 +145,22 @@ def setField (st : DState) (w : String) : DState :=
   | ["via", v] => { st with update := v == "update" }
   | ["threads", v] => { st with threads := v.toNat! }
   | ["q", v] => { st with q := natList v }
+  | ["stages", v] => { st with stages := (v.splitOn ",").filterMap (fun x =>
+      match x.splitOn ":" with
+      | [n, o] => some (n.toNat!, o.toNat!)
+      | _ => none) }
   | _ => st
+
+/-- the collection of stage `j`: the first `n` datasets, dataset `i` under location `o + i` -/
+def stageColl (st : DState) (j : Nat) : Option Coll :=
+  st.stages[j]?.map (fun (n, o) =>
+    (List.range (min n st.all.length)).map (fun i => { loc := o + i, hashes := st.all.hashesOf i }))
+
+/-- `internalize_storage` right after a step over a memory-backed stage (`none` = it failed) -/
+def internNow (c : Coll) (s : Sess) : Option Sess :=
+  match s.handle with
+  | none => some s
+  | some h => (internalize (world c) s.disk h).map (fun (d, h') => { s with disk := d, handle := some h' })
 
 def stepC10 (st : DState) (ws : List String) : DState × Resp :=
   match ws with
@@ -142,7 +168,30 @@ def stepC10 (st : DState) (ws : List String) : DState × Resp :=
     let st := params.foldl setField {}
     let d0 := if st.base > 0 || st.update then
         run Disk.empty (createLog Disk.empty (st.coll.take st.base) .fs) else Disk.empty
-    ({ st with sess := { disk := d0 } }, { model := "ok" })
+    ({ st with sess := { disk := d0 }, all := st.coll }, { model := "ok" })
+  | [op, j, kind] =>
+    if op != "mk" && op != "ext" then (st, { model := "bad-op" }) else
+    match stageColl st j.toNat! with
+    | none => (st, { model := "no-stage" })
+    | some c =>
+      let mem := kind == "mem"
+      let fin (st : DState) (r : String) : DState × Resp :=
+        (st, { model := r ++ "|" ++ observe st, spec := if st.complete then r ++ "|" ++ refObserve st else "-" })
+      if op == "mk" then
+        let s1 := createSess st.sess c .fs
+        match (if mem then internNow c s1 else some s1) with
+        | some s2 => fin { st with sess := s2, coll := c, complete := true } "ok"
+        | none => fin { st with sess := s1, coll := c, complete := true } "err-intern"
+      else
+        -- the stages are prefixes of one list of datasets: equal rows at equal positions
+        match extendSess true st.sess c .fs with
+        | (s1, .ok) =>
+          (match (if mem then internNow c s1 else some s1) with
+          | some s2 => fin { st with sess := s2, coll := c, complete := true } "ok"
+          | none => fin { st with sess := s1, coll := c, complete := true } "err-intern")
+        | (s1, .closed) => fin { st with sess := s1 } "closed"
+        | (s1, .panic) => ({ st with sess := s1 }, { model := "PANIC" })
+        | (s1, _) => fin { st with sess := s1 } "err"
   | ["crash", n] =>
     match buildLog st with
     | none => (st, { model := "child-failed:Some(101)" })
